@@ -7,7 +7,8 @@ R-C17.2  `python_value_to_guppy_type` interpreted on (value, hint) pairs -- scal
          and lists: an int is accepted at nat iff hint is nat, value >= 0 and <= 2^64-1,
          else at int iff in the signed range; bool is bool; every element of a tuple/list
          constant is range-checked.
-R-C17.3  negative literals are folded to constants before checking (`-9223372036854775808`).
+R-C17.3  negative literals are folded to constants before checking (`-9223372036854775808`); `desugar_comprehension` interpreted:
+         iterator, guard and element all go through the folding expression builder (c17_positions.py).
 R-C17.4  lowering uses the type's signedness and width: `python_value_to_hugr` interpreted on int values at nat / int, bare
          and inside tuple / list constants, with recording constructors (c17_lowering.py; match-arm shape only as fallback).
 R-C17.5  all constant entry points reach the range-checked function.
@@ -266,6 +267,9 @@ def run(ctx: Ctx) -> None:
         else:
             ctx.check(folded, "R-C17.3", f"{vu.qualname}#folds-negative-int-literals", vu.where, facts,
                       "`-9223372036854775808` is checked as 9223372036854775808 (out of range) and negated afterwards")
+
+    from . import c17_positions
+    c17_positions.run(ctx)  # R-C17.3: comprehension iterators / guards / elements all go through the folding builder
 
     # ------------------------------------------------------------ R-C17.4 lowering by signedness
     from . import c17_lowering
